@@ -24,6 +24,8 @@ ALL_GROUPS = frozenset({
     "broadcast", "index", "advindex", "ctor", "csr", "loopy", "like",
 })
 
+EXTRA_GROUPS = frozenset({"einsum_dist"})     # only on request (phases)
+
 MOVEMENT = ("roll", "transpose", "T", "reshape", "expand_dims", "squeeze",
             "broadcast_to", "index", "stack", "concatenate")
 
@@ -54,6 +56,10 @@ class GenCfg:
     output_names: tuple[str, ...] | None = None
     dup_prob: float = 0.0        # re-emit an existing op node (C05)
     outputs_may_be_inputs: bool = True
+    # optional generation phases: ((min_ops, max_ops, groups), ...) executed
+    # in order instead of one phase over cfg.groups
+    phases: tuple | None = None
+    only_sink_outputs: bool = False
 
 
 def _w(draw, pairs):
@@ -676,16 +682,71 @@ class Gen:
             p["via"] = "attr"
         return self.try_op(op, [["n", i]], p)
 
-    def g_einsum(self):
+    def g_einsum_dist(self):
+        """einsum one of whose operands is a tree the distributive law can
+        push the einsum through: (a +- b), c*a, a*c, a/c, -a (and c/a, which
+        must NOT be distributed), nested up to twice."""
+        pred = lambda v: 1 <= v.a.ndim <= 3 and v.kind in "iufc" and not v.nonfinite  # noqa: E731,E501
+        x = self.pick(pred)
+        if x is None:
+            x = self.new_input(self.choice(["float64", "int32"]),
+                               self.draw_shape(self.integers(1, 2)))
+            if 0 in self.vals[x].shape:
+                return None
+        t = x
+        for _ in range(self.integers(1, 2)):
+            sh = self.vals[t].shape
+            kind = _w(self.draw, [(4, "add"), (3, "sub"), (2, "lmul"),
+                                  (2, "rmul"), (2, "div"), (2, "rdiv"),
+                                  (1, "neg")])
+            if kind in ("add", "sub"):
+                same = self.arrays(lambda v: v.shape == sh and v.kind in "iufc"
+                                   and not v.nonfinite)
+                y = self.choice(same) if same else t
+                if y == t and self.boolean():
+                    y2 = self.try_op("mul", [["n", t], ["py", 2]])
+                    y = y2 if y2 is not None else y
+                args = [["n", t], ["n", y]]
+                if self.boolean():
+                    args.reverse()
+                r = self.try_op(kind, args)
+            elif kind == "lmul":
+                r = self.try_op("mul", [self.lit(self.vals[t], nonzero=True),
+                                        ["n", t]])
+            elif kind == "rmul":
+                r = self.try_op("mul", [["n", t],
+                                        self.lit(self.vals[t], nonzero=True)])
+            elif kind == "div":
+                r = self.try_op("truediv", [["n", t], ["py", self.choice(
+                    [2, 4, 0.5, -2, 8])]])
+            elif kind == "rdiv":
+                g = self.guard_positive(t)
+                r = None if g is None else self.try_op(
+                    "truediv", [["py", self.choice([1, 2, -3.5])], ["n", g]])
+            else:
+                r = self.try_op("neg", [["n", t]])
+            if r is not None:
+                t = r
+        return self.g_einsum(first=t)
+
+    def g_einsum(self, first=None):
         nops = _w(self.draw, [(3, 1), (5, 2), (2, 3)])
         pred = lambda v: 1 <= v.a.ndim <= 3 and v.kind != "b" and not v.nonfinite  # noqa: E731,E501
-        first = self.pick(pred)
         if first is None:
+            first = self.pick(pred)
+        if first is None:
+            first = self.new_input(shape=[self.choice(
+                [d for d in self.dims if d > 0] or [2])
+                for _ in range(self.integers(1, 2))])
+            if not pred(self.vals[first]):
+                return None
+        elif not pred(self.vals[first]):
             return None
         ops = [first]
         letters: dict[str, int] = {}
         specs = []
         alphabet = "ijklmn"
+        first_pos = self.integers(0, nops - 1)
         for k in range(nops):
             if k > 0:
                 # prefer operands sharing an axis length
@@ -715,6 +776,10 @@ class Gen:
         used = sorted(letters)
         out = [ch for ch in used if self.boolean(3, 5)]
         out = list(self.draw(st.permutations(out)))
+        # the first-chosen operand goes to a drawn position
+        if first_pos and first_pos < len(ops):
+            ops[0], ops[first_pos] = ops[first_pos], ops[0]
+            specs[0], specs[first_pos] = specs[first_pos], specs[0]
         spec = ",".join(specs) + "->" + "".join(out)
         if self.boolean(1, 4):
             spec = spec.replace(",", ", ").replace("->", " -> ")
@@ -1196,7 +1261,6 @@ class Gen:
             if self.use_complex and k == 0:
                 dtype = "complex128"
             self.new_input(dtype=dtype)
-        n_ops = self.integers(cfg.min_ops, cfg.max_ops)
         table = [
             (8, "arith", self.g_arith), (3, "unary", self.g_unary),
             (4, "math", self.g_math), (3, "div", self.g_div),
@@ -1205,6 +1269,7 @@ class Gen:
             (2, "maxmin", self.g_maxmin), (3, "where", self.g_where),
             (2, "astype", self.g_astype), (5, "reduce", self.g_reduce),
             (3, "einsum", self.g_einsum), (3, "matmul", self.g_matmul),
+            (4, "einsum_dist", self.g_einsum_dist),
             (2, "stack", self.g_stack), (2, "concat", self.g_concat),
             (2, "roll", self.g_roll), (2, "transpose", self.g_transpose),
             (3, "reshape", self.g_reshape), (1, "expand", self.g_expand),
@@ -1214,7 +1279,21 @@ class Gen:
             (1, "csr", self.g_csr), (1, "loopy", self.g_loopy),
             (1, "like", self.g_like),
         ]
-        pairs = [(w, (name, fn)) for w, name, fn in table if name in self.groups]
+        phases = cfg.phases or ((cfg.min_ops, cfg.max_ops, None),)
+        for lo, hi, groups in phases:
+            active = self.groups if groups is None else (
+                set(groups) & (self.groups if self.nan_mode
+                               else ALL_GROUPS | EXTRA_GROUPS))
+            pairs = [(w, (name, fn)) for w, name, fn in table
+                     if name in active]
+            if not pairs:
+                continue
+            self._phase(pairs, self.integers(lo, hi))
+        return self.finish()
+
+    def _phase(self, pairs, n_ops):
+        cfg = self.cfg
+        draw = self.draw
         made = 0
         attempts = 0
         while made < n_ops and attempts < 4 * n_ops + 8:
@@ -1237,7 +1316,6 @@ class Gen:
             if r is not None:
                 made += len([n for n in self.nodes[before:]
                              if n["op"] not in ("placeholder", "data")])
-        return self.finish()
 
     def finish(self):
         cfg = self.cfg
@@ -1251,9 +1329,10 @@ class Gen:
         for k in range(n_out):
             pool = []
             pool += sinks * 6
-            pool += opsn * 2
-            if cfg.outputs_may_be_inputs:
-                pool += arrays
+            if not (cfg.only_sink_outputs and sinks):
+                pool += opsn * 2
+                if cfg.outputs_may_be_inputs:
+                    pool += arrays
             if not pool:
                 pool = arrays
             if k > 0 and outs and self.boolean(1, 8):
